@@ -40,7 +40,7 @@ func WConfig(prop, tier string) *Config {
 	}
 	switch prop {
 	case "C01":
-		ops := []string{"swap_in_p1_usdc_atom_D", "swap_in_p1_usdc_atom_L", "swap_in_p1_atom_usdc_L", "swap_out_p1_usdc_atom_L", "swap_out_p1_atom_usdc_D",
+		ops := []string{"swap_in_p1_usdc_atom_D", "swap_in_p1_usdc_atom_L", "swap_in_p1_usdc_atom_XL", "swap_in_p1_atom_usdc_L", "swap_out_p1_usdc_atom_L", "swap_out_p1_atom_usdc_D", "join_p1_single_atom_t2",
 			"swap_in_p2_usdc_elys_L", "swap_in_p2_elys_usdc_D", "swap_out_p2_elys_usdc_L", "swap_in_2hop_elys_atom_L", "swap_out_2hop_atom_elys_L", "swap_batch_opposite_p1", "swap_in_samepool_p1_usdc_atom_usdc", "swap_in_samepool_p2_elys_usdc_elys", "swap_out_samepool_p2_usdc_elys_usdc",
 			"join_p1_all_t1", "join_p1_single_usdc_t1", "join_p2_all_t1", "exit_p1_10pct_lp1", "exit_p1_single_atom_lp1", "exit_p2_allbut1_lp1",
 			"perp_open_long_t1", "perp_open_long_atomcoll_t1", "perp_open_short_t2", "perp_close_half_t1", "perp_close_full_t2", "perp_bot_close_all",
@@ -67,7 +67,7 @@ func WConfig(prop, tier string) *Config {
 			cfg.Phases = []Phase{{Name: "full-depth2", Roots: []string{"R0", "R1", "R5", "R6"}, Ops: ops, Depth: 2, Dev: 2}}
 		}
 	case "C06":
-		ops := []string{"bond_lp1_L", "bond_lp1_D", "unbond_lp2_half", "unbond_lp2_D", "unbond_lp2_all", "llp_open_t1_x3", "llp_open_t1_x2_again", "llp_open_t2_x5", "llp_close_half_t1", "llp_close_full_t1", "llp_close_full_t2", "llp_bot_close_all",
+		ops := []string{"bond_lp1_L", "bond_lp1_D", "bond_t1_L", "bond_t2_L", "unbond_t1_half", "unbond_lp2_half", "unbond_lp2_D", "unbond_lp2_all", "llp_open_t1_x3", "llp_open_t1_x2_again", "llp_open_t2_x5", "llp_close_half_t1", "llp_close_full_t1", "llp_close_full_t2", "llp_bot_close_all",
 			"price_atom_2", "price_atom_12", "gap_1d", "gap_30d", "swap_in_p1_usdc_atom_XL", "empty"}
 		cfg.Oracles = []*Oracle{OracleC06()}
 		ops = append(ops, "cfg_llp_fallback_off")
